@@ -99,7 +99,8 @@ where
     {
         let mut vec = Vec::new();
 
-        while let Ok(Some(elem)) = visitor.next_element::<u8>() {
+        // an element that is not a u8 is an error, not the end of the sequence
+        while let Some(elem) = visitor.next_element::<u8>()? {
             vec.push(elem);
         }
 
